@@ -12,3 +12,55 @@ Theorem maybe_start_cleanup_arms : forall s o,
   /\ s_out (maybe_start_cleanup o s) = s_out s.
 Proof. exact maybe_start_cleanup_arms. Qed.
 Print Assumptions maybe_start_cleanup_arms.
+
+(* cnt o calls: the number of calls parked in the stream loop of operation o
+   (program counters PStream o _, PStreamCancelled o, PStreamReturn o _). *)
+
+(* waiters_exact: in every reachable state the waiter count of every
+   registered operation is the number of streams parked on it ... *)
+Theorem waiters_exact : forall cfg t0 evs o x,
+  fresh_calls [] evs -> let s := fst (run (init cfg t0) evs) in
+  aget Nat.eqb o (s_ops s) = Some x -> o_waiters x = cnt o (s_calls s).
+Proof. exact waiters_count_all. Qed.
+Print Assumptions waiters_exact.
+
+(* ... every stream is parked on a registered operation (operations with
+   waiters are never collected) ... *)
+Theorem parked_on_registered : forall cfg t0 evs c p o,
+  fresh_calls [] evs -> let s := fst (run (init cfg t0) evs) in
+  aget Nat.eqb c (s_calls s) = Some p -> parked_on p = Some o -> op_alive s o = true.
+Proof. exact parked_alive_all. Qed.
+Print Assumptions parked_on_registered.
+
+(* ... and a removal is scheduled only for operations nobody waits on. *)
+Theorem armed_only_unwaited : forall cfg t0 evs o x,
+  fresh_calls [] evs -> let s := fst (run (init cfg t0) evs) in
+  aget Nat.eqb o (s_ops s) = Some x -> o_cleanup x <> None -> o_waiters x = O.
+Proof. exact armed_only_unwaited_all. Qed.
+Print Assumptions armed_only_unwaited.
+
+(* every operation a task lists is registered and belongs to that task *)
+Theorem task_ops_registered : forall cfg t0 evs t x i o,
+  fresh_calls [] evs -> let s := fst (run (init cfg t0) evs) in
+  aget Nat.eqb t (s_tasks s) = Some x -> In (i, o) (t_ops x) ->
+  exists y, aget Nat.eqb o (s_ops s) = Some y /\ o_task y = t.
+Proof. exact task_ops_registered_all. Qed.
+Print Assumptions task_ops_registered.
+
+(* worker_timeout / no_waiter_timeout / queue_timeout, as what bq.enter does:
+   whenever a critical section reads the clock as t > now, the clean-up loop
+   runs every callback whose time has come, in time order, so that afterwards
+   every time-out still armed (operation, worker or queue) lies strictly in
+   the future -- or the loop ran out of fuel, which the model reports as
+   OPanic "cleanup: out of fuel" (compared with the implementation's
+   outputs on every history). *)
+Theorem enter_fires_all_overdue : forall t s, s_now s < t ->
+  In (OPanic "cleanup: out of fuel") (s_out (enter t s)) \/
+  (forall e, In e (cleanup_entries (enter t s)) -> s_now (enter t s) < fst e).
+Proof. exact enter_fires_all_overdue. Qed.
+Print Assumptions enter_fires_all_overdue.
+
+(* NOT PROVED YET (see docs/areas/Sched-proofs.md): the armed-timeout invariants
+   armed_when_unwaited : alive o, o_waiters = 0, o_mayexist = false -> o_cleanup <> None
+   worker_attended     : every worker has k_cleanup <> None or a Synchronize call naming it
+   (both are what Spec.c06_dump checks on the implementation's dumps). *)
